@@ -28,6 +28,11 @@ PythonJob arguments are checked through the (pickled) argument files the job dow
 walked through every list / tuple / dict (same container kind, same length / keys); every path found there for a file of
 another job is subject to the same plumbing clauses (downloaded from where the producer uploads it, producer is a parent,
 checked independently of each other) as a path found in a bash command.
+"Every resource reference in a command" is quantified over the number of references too: phase `wide` submits fan-in (gather)
+jobs whose single command string holds 9..264 references (several of them to files / groups that the job mentions nowhere else
+and only after the 8th / 16th / ... / 256th reference), and python consumers with more than eight resource arguments; the oracle
+records the position (0-based rank among the references of its command string) of every reference it checks, and scans everything
+that was submitted (commands, code files, argument files, user_code) for resource uids of the batch that were left unreplaced.
 """
 import contextlib
 import io
@@ -53,9 +58,12 @@ RULE = (
     'keyword arguments, for files, group members, python results and inputs (phase pyargs: every call has such arguments; '
     'main: about a third). Phase tokens: the job-token generator is restricted '
     'to a tiny seeded space (birthday collisions of 5-character tokens in large batches). Phase digits: a reference '
-    'is immediately followed by a digit. Non-trivial: at least one file crosses jobs; distinct by the shape of the '
-    'program (op kinds, reference forms, extension timing) without the random names. quick 1200+100+100+200 programs, '
-    'thorough 16 shards x (5000+300+300+600).'
+    'is immediately followed by a digit. Phase wide: 3..12 jobs; fan-in jobs with one command string of 9..12 / 17..24 / 33..40 / '
+    '65..80 / 129..140 / 257..264 references (own outputs, inputs, files, groups and group members of up to 11 producers, repeated '
+    'mentions, multi-line literals in between); 1..7 of the consumed files / groups are mentioned nowhere else in the job and only at '
+    'or after reference position 0 / 8 / 16 / 32 / 64 / 128 / 256 of that string; python consumers with 9..20 resource arguments. Non-trivial: at least one file crosses jobs; distinct by the shape of the '
+    'program (op kinds, reference forms, extension timing) without the random names. quick 1200+100+100+200+150 programs, '
+    'thorough 16 shards x (5000+300+300+600+450).'
 )
 ASSUMPTIONS = [
     'the recording fake client receives exactly what hailtop.batch_client.aioclient.Batch.create_job would receive',
@@ -108,6 +116,28 @@ def FLOORS(tier):
         'input_reads_only_through_list': 240 * k,
         'input_reads_only_through_dict': 100 * k,
         'input_reads_only_through_kwarg': 100 * k,
+        # phase wide (about half of the minimum over quick seeds 0..4; thorough runs 48 x the quick number of wide programs).
+        # position = 0-based rank of a reference among the references of one command string.  *_first_mentioned_at_position_N_or_later
+        # = files (inputs, producers) whose every mention by the consuming bash job sits at or after the N-th reference of a command
+        # string -- the only cases in which what the (N+1)-th, ... reference of a string registers is visible; producers_* excludes
+        # producers the job also depends_on explicitly; *_their_producer_first_mentions_* = the producer itself declares the file
+        # (first mention of an own output) that deep into a string.  A run that never reached these is INCONCLUSIVE, not HELD.
+        'submitted_texts_scanned_for_leftover_uids': 6000 * k,
+        'python_calls_with_more_than_8_resource_arguments': 55 * k,
+        **{f'commands_with_more_than_{t}_references': n * k
+           for t, n in zip(POSITIONS, (300, 250, 180, 120, 60, 25))},
+        **{f'commands_with_more_than_{t}_references_in_a_code_file': n * k
+           for t, n in zip(POSITIONS, (130, 130, 120, 100, 55, 25))},
+        **{f'references_checked_at_position_{t}_or_later': n * k
+           for t, n in zip(POSITIONS, (18000, 16000, 13000, 8000, 3500, 100))},
+        **{f'cross_job_reads_first_mentioned_at_position_{t}_or_later': n * k
+           for t, n in zip(POSITIONS, (1400, 1000, 550, 280, 100, 12))},
+        **{f'input_reads_first_mentioned_at_position_{t}_or_later': n * k
+           for t, n in zip(POSITIONS, (430, 280, 170, 85, 25, 4))},
+        **{f'producers_first_mentioned_at_position_{t}_or_later': n * k
+           for t, n in zip(POSITIONS, (500, 340, 170, 75, 28, 3))},
+        **{f'cross_job_reads_of_files_their_producer_first_mentions_at_position_{t}_or_later': n * k
+           for t, n in zip(POSITIONS, (330, 190, 95, 40, 13, 3))},
     }
 
 
@@ -171,6 +201,12 @@ LITERALS = [
 
 
 PLACEHOLDER = re.compile(r'__(RESOURCE_FILE|RESOURCE_GROUP|PYTHON_RESULT|JOB|BATCH)__\d')
+# the uid of a resource as str(resource) spells it (what a reference in a command is before it is replaced)
+RESOURCE_UID = re.compile(r'__(?:RESOURCE_FILE|RESOURCE_GROUP|PYTHON_RESULT)__\d+__')
+# phase wide: number of references in one command string, and the reference positions (0-based rank among the references of the
+# string) from which on the counters / floors tell apart how deep into a command a checked reference sat
+WIDE_WIDTHS = [(9, 12), (9, 12), (17, 24), (17, 24), (33, 40), (33, 40), (65, 80), (65, 80), (129, 140), (257, 264)]
+POSITIONS = (8, 16, 32, 64, 128, 256)
 
 
 class Gen:
@@ -219,7 +255,11 @@ class Gen:
             nj = r.choice([3, 4, 5, 6])
         if self.mode == 'pyargs':
             nj = r.choice([2, 3, 3, 4, 5])
+        if self.mode == 'wide':
+            nj = r.choice([3, 4, 6, 8, 10, 12])  # scatter / gather: many producers, fan-in consumers
         p_py = 0.0 if self.mode in ('tokens', 'digits') else r.choice([0.0, 0.25, 0.5])
+        if self.mode == 'wide':
+            p_py = r.choice([0.0, 0.0, 0.2])
         if self.mode == 'pyargs':
             p_py = r.choice([0.5, 0.75])
         rank = list(range(nj))
@@ -321,12 +361,72 @@ class Gen:
         ncmd = r.choice([1, 1, 2, 3])
         must = list(own)  # every own file is mentioned at least once (otherwise nobody may consume it)
         r.shuffle(must)
+        # phase wide: one command string of this job holds many references (a gather step: `cat {a.ofile} {b.ofile} ... > {j.out}`).
+        # `late`: files / groups of other jobs (and inputs) that the job mentions ONLY in that string and only at or after
+        # reference position `lo` (everything the k-th reference of a string registers -- download, upload by the producer,
+        # dependency -- is visible only for a resource no earlier reference of the job has registered already)
+        wide_cmd, late, lo, width, own_early = None, [], 0, 0, own
+        if self.mode == 'wide' and (j == rank[-1] or r.random() < 0.6):
+            wide_cmd = r.randrange(ncmd)
+            width = r.randint(*r.choice(WIDE_WIDTHS))
+            below = [t for t in (0,) + POSITIONS if t < width]
+            lo = below[-1] if r.random() < 0.5 else r.choice(below)
+            protected = set()
+            if before and r.random() < 0.5:
+                # whole producers (1..3) that the job mentions only late: all their files and groups are kept out of every
+                # other reference of the job
+                late_producers = set(r.sample(sorted(before), r.randint(1, min(len(before), 3))))
+                theirs = [rid for rid in fs if self.files[rid]['producer'] in late_producers]
+                protected |= set(theirs)
+                picked = {a: [rid for rid in theirs if self.files[rid]['producer'] == a] for a in late_producers}
+                chosen = [r.choice(v) for a, v in sorted(picked.items()) if v] + [rid for rid in theirs if r.random() < 0.3]
+            else:
+                chosen = r.sample(fs, r.randint(1, min(len(fs), 6))) if fs else []
+            for rid in chosen:
+                protected.add(rid)
+                for _ in range(r.choice([1, 1, 2])):
+                    late.append({'t': 'ref', 'form': 'file', 'rid': rid, 'suffix': ''})
+            # own outputs whose first mention (the one that declares them) sits late in the wide string
+            own_late = r.sample(own, r.randint(0, len(own) - 1))
+            own_early = [rid for rid in own if rid not in own_late]
+            late.extend({'t': 'ref', 'form': 'file', 'rid': rid, 'suffix': ''} for rid in own_late)
+            must = [rid for rid in must if rid not in own_late]
+            free_groups = [gid for gid in gs if not protected & set(self.groups[gid]['members'].values())]
+            if free_groups and r.random() < 0.5:
+                gid = r.choice(free_groups)
+                g = self.groups[gid]
+                protected |= set(g['members'].values())
+                sfx_members = [m for m, sfx in g['suffix'].items() if sfx]
+                if sfx_members and r.random() < 0.5:
+                    m = r.choice(sfx_members)
+                    late.append({'t': 'ref', 'form': 'group_suffix', 'gid': gid, 'member': m, 'suffix': g['suffix'][m]})
+                else:
+                    late.append({'t': 'ref', 'form': 'group', 'gid': gid, 'suffix': ''})
+            fs = [rid for rid in fs if rid not in protected]
+            gs = [gid for gid in gs if not protected & set(self.groups[gid]['members'].values())]
         for c in range(ncmd):
             segs = []
             nref = r.randint(1, 4)
             refs = []
-            if c == 0:
+            if c == (wide_cmd or 0):
                 refs = [{'t': 'ref', 'form': 'file', 'rid': rid, 'suffix': ''} for rid in must]
+            if c == wide_cmd:
+                nref = 0
+                while len(refs) + len(late) < width:
+                    pool = r.random()
+                    if pool < 0.4 and fs:
+                        refs.append({'t': 'ref', 'form': 'file', 'rid': r.choice(fs), 'suffix': ''})
+                    elif pool < 0.6 and gs + own_groups:
+                        gid = r.choice(gs + own_groups)
+                        g = self.groups[gid]
+                        sfx_members = [m for m, sfx in g['suffix'].items() if sfx]
+                        if sfx_members and r.random() < 0.6:
+                            m = r.choice(sfx_members)
+                            refs.append({'t': 'ref', 'form': 'group_suffix', 'gid': gid, 'member': m, 'suffix': g['suffix'][m]})
+                        else:
+                            refs.append({'t': 'ref', 'form': 'group', 'gid': gid, 'suffix': ''})
+                    else:
+                        refs.append({'t': 'ref', 'form': 'file', 'rid': r.choice(own_early), 'suffix': ''})
             for _ in range(nref):
                 pool = r.random()
                 if pool < 0.35 and fs:
@@ -342,10 +442,13 @@ class Gen:
                     else:
                         refs.append({'t': 'ref', 'form': 'group', 'gid': gid, 'suffix': ''})
                 elif pool < 0.8:
-                    refs.append({'t': 'ref', 'form': 'file', 'rid': r.choice(own), 'suffix': ''})
+                    refs.append({'t': 'ref', 'form': 'file', 'rid': r.choice(own_early), 'suffix': ''})
                 else:
                     refs.append({'t': 'lit', 's': self.literal()})
             r.shuffle(refs)
+            if c == wide_cmd:
+                for x in late:
+                    refs.insert(r.randint(min(lo, len(refs)), len(refs)), x)
             for x in refs:
                 if r.random() < 0.75:
                     segs.append({'t': 'lit', 's': self.literal()})
@@ -435,6 +538,13 @@ class Gen:
             if r.random() < (1.0 if pyargs else 0.35):
                 for _ in range(r.choice([1, 1, 2])):
                     args.insert(r.randint(0, len(args)), self.py_container(fs, gs, pys + own_results, 1))
+            if self.mode == 'wide' and k == 0 and fs:
+                # fan-in into a python consumer: `j.call(merge, [p.ofile for p in parts])`, `j.call(merge, *outputs)`
+                many = [{'t': 'file', 'rid': r.choice(fs)} for _ in range(r.randint(9, 20))]
+                if r.random() < 0.5:
+                    args.insert(r.randint(0, len(args)), {'t': r.choice(['list', 'tuple']), 'items': many})
+                else:
+                    args.extend(many)
             kwargs = []
             if r.random() < (0.6 if pyargs else 0.25):
                 for name in r.sample(KW_NAMES, r.choice([1, 1, 2])):
@@ -736,6 +846,7 @@ def execute(case):
             return obs
         fb = client.batches[0]
         obs['submits'] = fb.submits
+        obs['uids'] = [uid for uid in b._resource_map if isinstance(uid, str)]
         specs = []
         for fj in fb.jobs:
             s = fj.spec
@@ -937,6 +1048,18 @@ def check(ctx, case, obs):
     def add_use(j, rid, path):
         uses.setdefault((j, rid), set()).add(path)
 
+    # position = 0-based rank of a reference among the references of its command string (one Job.command call); first_pos =
+    # the smallest position at which a bash job mentions a file / a group in any of its commands
+    first_pos, group_pos = {}, {}
+
+    def note_pos(table, key, pos):
+        table[key] = min(table.get(key, pos), pos)
+
+    def count_from(name, pos):
+        for t in POSITIONS:
+            if pos is not None and pos >= t:
+                ctx.count(f'{name}_at_position_{t}_or_later')
+
     # ---- 1. commands of bash jobs: literal identity, reference replacement ----
     for j, job in enumerate(jobs):
         if job['kind'] != 'bash':
@@ -983,8 +1106,17 @@ def check(ctx, case, obs):
                 pos = i + len(s)
             if bad:
                 break
+            n_refs = sum(1 for s in segs if s['t'] == 'ref')
+            for t in POSITIONS:
+                if n_refs > t:
+                    ctx.count(f'commands_with_more_than_{t}_references')
+                    if text is not cmd:
+                        ctx.count(f'commands_with_more_than_{t}_references_in_a_code_file')
+            ref_pos = -1
             for k, s in enumerate(segs):
                 got = text[marks[k][1]:marks[k + 1][0]]
+                if s['t'] == 'ref':
+                    ref_pos += 1
                 if s['t'] == 'lit':
                     if got == s['s']:
                         ctx.count('literal_segments_identical')
@@ -1014,17 +1146,36 @@ def check(ctx, case, obs):
                     continue
                 ctx.count('references_checked')
                 ctx.count('references_' + how)
+                count_from('references_checked', ref_pos)
                 if s['form'] == 'file':
                     add_use(j, s['rid'], path)
+                    note_pos(first_pos, (j, s['rid']), ref_pos)
                 elif s['form'] == 'group':
                     group_root.setdefault((j, s['gid']), set()).add(path)
+                    note_pos(group_pos, (j, s['gid']), ref_pos)
                 else:
                     group_root.setdefault((j, s['gid']), set()).add(path)
+                    note_pos(group_pos, (j, s['gid']), ref_pos)
                     add_use(j, groups[s['gid']]['members'][s['member']], path + sfx)
+
+    # ---- 1b. nothing that still spells a resource of this batch was submitted: commands (the wrapper code of python jobs
+    # included), code files, argument files, user_code
+    live = set(obs['uids'])
+    scanned = [(f"the submitted command of job_id {s['job_id']}", '\0'.join(s['command'])) for s in specs]
+    scanned += [(f"the user_code of job_id {s['job_id']}", s['user_code']) for s in specs if isinstance(s.get('user_code'), str)]
+    scanned += [(f'the uploaded file {path}', data.decode('latin-1')) for path, data in sorted(fsfiles.items())]
+    for where, content in scanned:
+        ctx.count('submitted_texts_scanned_for_leftover_uids')
+        left = sorted({m for m in RESOURCE_UID.findall(content) if m in live})
+        if left:
+            viol('command/reference-not-replaced', f'{where} still contains the resource uid(s) {left[:5]} ({len(left)} distinct): references that were never replaced by a path')
+            ok = False
 
     # whole-group references: members with a {root}-relative template live at root + suffix
     for (j, gid), roots in group_root.items():
         g = groups[gid]
+        for m, rid in g['members'].items():
+            note_pos(first_pos, (j, rid), group_pos[(j, gid)])
         if g['producer'] is None:
             # input groups: root + '.' + name are symlinks (checked below when used); every member must be downloaded
             for m, rid in g['members'].items():
@@ -1172,6 +1323,12 @@ def check(ctx, case, obs):
         a = f['producer']
         if a == j:
             continue
+        # how deep into a command string the job's first mention of the file sits (bash consumers), and how deep the producer's
+        # own first mention of it sat (a reference to an own file is what declares it)
+        if jobs[j]['kind'] == 'bash':
+            count_from('input_reads_first_mentioned' if a is None else 'cross_job_reads_first_mentioned', first_pos.get((j, rid)))
+        if a is not None and jobs[a]['kind'] == 'bash':
+            count_from('cross_job_reads_of_files_their_producer_first_mentions', first_pos.get((a, rid)))
         for path in sorted(paths):
             ins = [(r, l) for r, l in spec['input_files'] if l == path]
             if f['kind'] == 'input':
@@ -1266,6 +1423,28 @@ def check(ctx, case, obs):
             if not good:
                 viol('plumbing/group-member-not-transferred', f'job {j} references the whole group {g["name"]!r} of job {a}; member {m!r} is not uploaded / downloaded consistently', job=j)
                 ok = False
+
+    # the parent clause is visible for a producer only through the first reference (of the consumer) to any of its files
+    producer_pos = {}
+    for (j, rid), pos in first_pos.items():
+        a = files[rid]['producer']
+        if a is not None and a != j:
+            note_pos(producer_pos, (j, a), pos)
+    for (j, a), pos in sorted(producer_pos.items()):
+        if a not in jobs[j]['depends_on']:
+            count_from('producers_first_mentioned', pos)
+
+    # python consumers with many resource arguments
+    for j, job in enumerate(jobs):
+        for call in job['calls']:
+            def leaves(a):
+                if a['t'] in ('list', 'tuple'):
+                    return sum(leaves(x) for x in a['items'])
+                if a['t'] == 'dict':
+                    return sum(leaves(x) for _, x in a['items'])
+                return 1 if a['t'] in ('file', 'group', 'pyresult') else 0
+            if sum(leaves(a) for a in call['args']) + sum(leaves(a) for _, a in call['kwargs']) > 8:
+                ctx.count('python_calls_with_more_than_8_resource_arguments')
 
     # explicit dependencies
     for j, job in enumerate(jobs):
@@ -1381,7 +1560,7 @@ def run(ctx):
 
     gc.disable()  # Backend.__del__ runs the event loop: let the cyclic GC run between cases only
     phases = [('main', ctx.pick(1200, 5000)), ('tokens', ctx.pick(100, 300)), ('digits', ctx.pick(100, 300)),
-              ('pyargs', ctx.pick(200, 600))]  # ~8 ms per program
+              ('pyargs', ctx.pick(200, 600)), ('wide', ctx.pick(150, 450))]  # ~8 ms per program (wide: ~40 ms)
     for phase, n in phases:
         for i, rng in ctx.cases(n, phase):
             case = gen_case(rng, phase)
@@ -1475,3 +1654,24 @@ def run(ctx):
 #  B4  own    _compile.preserialize serializes tuples as lists                            CAUGHT python/tuple-argument-changed
 #  B5  own    handle_arg does not add the dependency for PythonResult arguments           CAUGHT parents/producer-not-a-parent
 #  (C18-agent2, Job._dirname truncation: still CAUGHT paths/job-token-collision)
+#
+# Strengthening after seed C18-agent8 (`re.sub(pattern, handler, command, re.MULTILINE)` in Job._interpolate_command: the flag lands
+# in re.sub's `count` parameter, so only the first 8 references of one command string are replaced / registered, in the registration
+# pass of command() and in the substitution pass of _compile alike).  "EVERY resource reference in a command" was exercised for at
+# most 7 references per string (<= 3 own files + <= 4 others).  Added: phase `wide` (fan-in / gather jobs: one command string with
+# 9..264 references, widths bracketing 8 / 16 / 32 / 64 / 128 / 256; 1..7 files, whole producers or a group that the job mentions
+# nowhere else and only from a chosen reference position on; own outputs whose declaring first mention sits that deep; such strings
+# inline and in code.sh; python consumers with 9..20 resource arguments, flat or in one list / tuple); the oracle records the
+# position of every reference it checks and counts, per threshold, the files / inputs / producers that are visible only there
+# (floors); new absolute clause: no uid of a resource of the batch occurs anywhere in what was submitted (commands incl. python
+# wrapper code, code files, argument files, user_code), key command/reference-not-replaced.
+# Validation (scratch worktree of b3860ceef, quick, seed 0, one break at a time, all exit 1):
+#  S8  seed   C18-agent8 count=8                                 CAUGHT command/reference-not-replaced, build/dsl-refused-generated-program
+#  W1  own    count=64 (re.VERBOSE in the count slot)            CAUGHT same two keys (incl. "user_code ... still contains the resource uid")
+#  W2  own    count=256 (re.ASCII in the count slot)             CAUGHT same two keys
+#  W3  own    command() registers only the first 4096 characters of the string (substitution pass complete)
+#                                                               CAUGHT build/dsl-refused-generated-program, submit/run-raised
+#  W4  own    PythonJob.call handle_args looks at the first 8 elements of a sequence only
+#                                                               CAUGHT plumbing/consumer-does-not-download-the-path-it-uses, parents/producer-not-a-parent
+#  W5  own    handler adds the dependency only while fewer than 16 resources have been mentioned by the job
+#                                                               CAUGHT parents/producer-not-a-parent
